@@ -5,6 +5,7 @@ import CatiiProofs.Filtered
 import CatiiProofs.Update
 import CatiiProofs.FromArray
 import CatiiProofs.FromArrayWf
+import CatiiProofs.ColumnStack
 /-!
 # C07 — every operation preserves index well-formedness
 
@@ -14,7 +15,7 @@ coordinates within the shape, no row under two values of the same column.  `wf` 
 version the harness evaluates on every real result; `wf_sound` ties the two.
 
 **Partial**: preservation is proved for `shift_common` (any value, and the library-chosen one),
-`copy`, `append` (any operands with the same higher shape whose rows fit 32 bits), `filtered` (any mask), `update` (any consistent cell assignments) and construction
+`copy`, `append` (any operands with the same higher shape whose rows fit 32 bits), `filtered` (any mask), `update` (any consistent cell assignments), `column_stack` and construction
 from arrays (`from_array_wellformed`); for the other operations it is checked after every step of every generated history
 on the real code (`validate(True)` plus the range / arity / non-emptiness conditions) and on the
 model (`wf`), but is not yet a theorem.
@@ -51,6 +52,12 @@ theorem update_preserves_partial (i : IIndex) (ents : List (Key × Rows)) (ok : 
     ∃ r, update i ents = .ok r ∧ WF r := by
   obtain ⟨r, h1, h2, _⟩ := update_refines ok
   exact ⟨r, h1, h2⟩
+
+/-- `column_stack` returns a well-formed index, for any mix of 1-D / 2-D inputs and common values -/
+theorem column_stack_preserves_partial (first : IIndex) (tl : List IIndex) (newCommon : Option Int) (r : IIndex)
+    (n : Nat) (hall : ∀ x ∈ first :: tl, WF x ∧ x.ndim ≤ 2 ∧ x.nrows = n)
+    (h : columnStack (first :: tl) newCommon = .ok r) : WF r :=
+  (columnStack_refines first tl newCommon r n hall h).1
 
 /-- consequence named by the property: after re-encoding nothing is listed under the common value
 and no entry is empty, so the set of listed values contains no category that occurs nowhere -/
